@@ -774,3 +774,117 @@ def api3_cases(ctx):
         length = rng.choice([4, 8, 12, 20, 40]) if i % 10 else rng.choice([80, 150])
         out.append(render3(gen_history3(rng, length)))
     return out
+
+
+# ------------------------------------------------------------------ model-fidelity audit (AUDIT.md)
+# Branches of model H that the older scenario lists did not reach, each with the observable that tells the two
+# behaviours apart.  New op words (harness/hx_heap.inc, driver.ml): decn (cbor_decref(&p): was p set to NULL?),
+# sallocn (cbor_serialize_alloc with buffer_size == NULL), mkey / mvalue (_cbor_map_add_key / _cbor_map_add_value alone).
+U64 = 2 ** 64
+
+def audit_cases(ctx):
+    out = []
+    A = lambda ops: out.append(_close3(ops))
+    R = lambda text: out.append(text)          # histories whose releases are spelled out (decn consumes a reference)
+    # ---- cbor_decref(&p): p becomes NULL exactly when the item is deallocated (common.h), for every node kind
+    R("bi 0 8 1 ? 0; decn 0")
+    R("bi 0 8 1 ? 0; inc 0 ? 0; decn 0 ? 0; decn 0")
+    R("nia ? 0; bi 0 8 1 ? 0 1; push 0 1 ? 0 1; decn 1 ? 0; get 0 0 ? 0 2; decn 2 ? 0; decn 0")
+    R("bi 0 8 1 ? 0; bt 5 0 ? 0 1; decn 0 ? 1; decn 1")
+    R("bs 1 c3a9 ? 0; nis 1 ? 0 1; chunk 1 0 ? 0 1; decn 0 ? 1; decn 1")
+    R("nim ? 0; bf 64 7ff8000000000000 ? 0 1; madd 0 1 1 ? 0 1; decn 1 ? 0; copy 0 ? 0 2; decn 0 ? 2; decn 2")
+    R("load 83019f02ffa10304 ? 0; get 0 1 ? 0 1; decn 0 ? 1; ser 1 8; decn 1")
+    R("nds 0 ? 0; decn 0")
+    # ---- a definite string that has no buffer yet (documented state of cbor_new_definite_(byte)string: handle NULL, length 0)
+    #      is copied / serialized / described / used as a chunk like any other empty string (AUDIT.md D1)
+    for t in (0, 1):
+        A(["nds %d" % t, "copy 0", "ser 0 4", "ssize 0", "salloc 0", "desc 0", "val 0", "ser 1 4"])
+        A(["nds %d" % t, "nia", "push 1 0", "copy 1", "ser 1 8", "ser 2 8", "salloc 1"])
+        A(["nds %d" % t, "nis %d" % t, "chunk 1 0", "ser 1 8", "copy 1", "desc 1"])
+        A(["nds %d" % t, "bt 3 0", "copy 1", "ser 2 8"])
+    R("nt 7 ? 0; decn 0")
+    # ---- cbor_serialize_alloc(item, &buf, NULL)
+    R("bi 0 64 18446744073709551615 ? 0; sallocn 0; nia ? 0 1; push 1 0 ? 0 1; sallocn 1; salloc 1; dec 0; dec 1")
+    R("nt 3 ? 0; bs 1 c3a9 ? 0 1; tset 0 1; sallocn 0 ? 0 1; salloc 0; dec 0; dec 1")
+    R("load bf6161f97e00ff ? 0; sallocn 0; dec 0")
+    # ---- the two halves of cbor_map_add on their own: a pair whose value is still NULL is released key-only;
+    #      a second _add_value overwrites the slot (the client inherits the reference of the overwritten value)
+    R("nim ? 0; bi 0 8 1 ? 0 1; bs 1 61 ? 0 1 2; mkey 0 1 ? 0 1 2; mvalue 0 2 ? 0 1 2; ser 0 16; mkey 0 2 ? 0 1 2; mvalue 0 1 ? 0 1 2; ser 0 16; "
+      "copy 0 ? 0 1 2 3; dec 0; dec 1; dec 2; dec 3")
+    R("ndm 1 ? 0; bi 0 8 1 ? 0 1; mkey 0 1 ? 0 1; mkey 0 1 ? 0 1; mvalue 0 1 ? 0 1; mvalue 0 1 ? 0 1; ser 0 8; dec 0 ? 1; dec 1; dec 1")
+    R("nim ? 0; bi 0 8 1 ? 0 1; mkey 0 1 ? 0 1; mkey 0 1 ? 0 1; mkey 0 1 ? 0 1; dec 0 ? 1; dec 1")
+    R("ndm 2 ? 0; bi 0 8 1 ? 0 1; mkey 0 1 ? 0 1; mkey 0 1 ? 0 1; mvalue 0 1 ? 0 1; mkey 0 1 ? 0 1; dec 0 ? 1; dec 1")
+    R("ndm 0 ? 0; bi 0 8 1 ? 0 1; mkey 0 1 ? 0 1; madd 0 1 1 ? 0 1; dec 0; dec 1")
+    R("load a10102 ? 0; bi 0 8 9 ? 0 1; mkey 0 1 ? 0 1; madd 0 1 1 ? 0 1; ser 0 8; dec 0; dec 1")
+    # ---- key == value, the same item many times in one container
+    R("nim ? 0; bi 0 8 7 ? 0 1; madd 0 1 1 ? 0 1; madd 0 1 1 ? 0 1; ser 0 8; dec 1 ? 0; ser 0 8; copy 0 ? 0 2; dec 0; dec 2")
+    R("ndm 1 ? 0; bs 1 c3a9 ? 0 1; madd 0 1 1 ? 0 1; madd 0 1 1 ? 0 1; vals 0; ser 0 8; dec 0 ? 1; dec 1")
+    R("bs 0 61 ? 0; nis 0 ? 0 1; chunk 1 0 ? 0 1; chunk 1 0 ? 0 1; chunk 1 0 ? 0 1; ser 1 12; dec 0 ? 1; copy 1 ? 1 2; dec 1; dec 2")
+    # ---- reference count at 0 and at SIZE_MAX: cbor_move at 0 wraps to 2^64-1, cbor_incref at 2^64-1 wraps to 0 (unsigned arithmetic, no release)
+    R("bi 0 8 1 ? 0; inc 0 ? 0; mv 0 ? 0; mv 0 ? 0; preds 0; mv 0; preds 0; inc 0; preds 0; inc 0 ? 0; preds 0; dec 0")
+    R("nia ? 0; mv 0; mv 0; preds 0; inc 0; inc 0 ? 0; bi 0 8 1 ? 0 1; pushmv 0 1 ? 0; ser 0 4; dec 0")
+    # ---- constructors at the guard / cap boundaries: _cbor_alloc_multiple refuses without a request (2^60 pointers, 2^59 pairs),
+    #      the allocator refuses the request (just below), the cap boundary (2^20 bytes), size 0
+    R("nda 1152921504606846975 ? 0; nda 1152921504606846976 ? 0 1; nda 2305843009213693952 ? 0 1 2; nda 18446744073709551615 ? 0 1 2 3; "
+      "nda 131072 ? 4; nda 131073 ? 4 5; dec 4")
+    R("ndm 576460752303423487 ? 0; ndm 576460752303423488 ? 0 1; ndm 1152921504606846976 ? 0 1 2; ndm 18446744073709551615 ? 0 1 2 3; "
+      "ndm 65536 ? 4; ndm 65537 ? 4 5; dec 4")
+    R("nda 0 ? 0; bi 0 8 1 ? 0 1; push 0 1 ? 0 1; set 0 0 1 ? 0 1; repl 0 0 1 ? 0 1; get 0 0 ? 0 1 2; ser 0 2; copy 0 ? 0 1 3; dec 0; dec 1; dec 3")
+    R("ndm 0 ? 0; bi 0 8 1 ? 0 1; madd 0 1 1 ? 0 1; ser 0 2; copy 0 ? 0 1 2; dec 0; dec 1; dec 2")
+    # ---- cbor_array_set at index == size (push path: refused when a definite array is full, growth when indefinite), size + 1, in range
+    R("bi 0 8 1 ? 0; nda 2 ? 0 1; set 1 0 0 ? 0 1; set 1 1 0 ? 0 1; set 1 2 0 ? 0 1; set 1 3 0 ? 0 1; set 1 1 0 ? 0 1; nia ? 0 1 2; set 2 0 0 ? 0 1 2; "
+      "set 2 1 0 ? 0 1 2; set 2 2 0 ? 0 1 2; set 2 4 0 ? 0 1 2; set 2 3 0 ? 0 1 2; dec 0; dec 1; dec 2")
+    R("bi 0 8 1 ? 0; bi 0 8 2 ? 0 1; nia ? 0 1 2; push 2 0 ? 0 1 2; inc 0 ? 0 1 2; repl 2 0 0 ? 0 1 2; repl 2 0 1 ? 0 1 2; repl 2 0 1 ? 0 1 2; ser 2 8; "
+      "dec 0; dec 0; dec 1; dec 2")
+    # ---- cbor_copy sizes the copy by size, not by capacity; chunk tables of copies grow 0, 1, 2, 4
+    R("bi 0 8 1 ? 0; nda 5 ? 0 1; push 1 0 ? 0 1; push 1 0 ? 0 1; copy 1 ? 0 1 2; push 2 0 ? 0 1 2; ser 2 8; ser 1 8; push 1 0 ? 0 1 2; dec 0; dec 1; dec 2")
+    R("bi 0 8 1 ? 0; bs 1 6162 ? 0 1; ndm 4 ? 0 1 2; madd 2 0 1 ? 0 1 2; copy 2 ? 0 1 2 3; madd 3 0 1 ? 0 1 2 3; ser 3 12; dec 0; dec 1; dec 2; dec 3")
+    R("bs 0 61 ? 0; nis 0 ? 0 1; copy 1 ? 0 1 2; chunk 1 0 ? 0 1 2; copy 1 ? 0 1 2 3; chunk 1 0 ? 0 1 2 3; copy 1 ? 0 1 2 3 4; chunk 1 0 ? 0 1 2 3 4; "
+      "copy 1 ? 0 1 2 3 4 5; chunk 5 0 ? 0 1 2 3 4 5; chunk 5 0 ? 0 1 2 3 4 5; ser 5 16; dec 0; dec 1; dec 2; dec 3; dec 4; dec 5")
+    # ---- cbor_new_ctrl stores CBOR_CTRL_NONE (0): readable at once, unlike cbor_new_intN / cbor_new_floatN
+    R("nc ? 0; preds 0; vals 0; ser 0 4; ssize 0; copy 0 ? 0 1; vals 1; sc 0 255; vals 0; ser 0 4; sc 0 24; ser 0 4; sc 0 23; ser 0 4; dec 0; dec 1")
+    # ---- every builder callback x position through the heap-level decoder, then every read-only observation and a copy
+    from .cborgen import AUDIT_HEADS, hx as _hx
+    for h in AUDIT_HEADS:
+        for enc in (h, [0x82] + h + h, [0xBF] + h + h + [0xFF], [0xA1, 0x01, 0xC1] + h, [0x9F, 0x81] + h + [0xFF]):
+            R("load %s ? 0; preds 0; ssize 0; ser 0 40; copy 0 ? 0 1; sallocn 1; decn 0; decn 1" % _hx(enc))
+    return out
+
+def audit_fault_cases(ctx):
+    """the same calls with every single request (and every request from k on) refused"""
+    from .cborgen import AUDIT_HEADS, hx as _hx
+    out = ["bi 0 8 1 ? 0; nia ? 0 1; push 1 0 ? 0 1; sallocn 1 ? 0 1; decn 1 ? 0; decn 0",
+           "bi 0 16 300 ? 0; bt 9 0 ? 0 1; sallocn 1 ? 0 1; salloc 1 ? 0 1; copy 1 ? 0 1 2; decn 2; decn 1; decn 0",
+           "nim ? 0; bi 0 8 7 ? 0 1; madd 0 1 1 ? 0 1; madd 0 1 1 ? 0 1; madd 0 1 1 ? 0 1; copy 0 ? 0 1 2; dec 0; dec 1; dec 2",
+           "nda 0 ? 0; ndm 0 ? 0 1; copy 0 ? 0 1 2; copy 1 ? 0 1 2 3; dec 0; dec 1; dec 2; dec 3"]
+    for h in AUDIT_HEADS:
+        for enc in ([0xA1, 0x01, 0xC1] + h, [0x9F, 0xBF] + h + h + [0xFF, 0xFF], [0x82] + h + h):
+            out.append("load %s ? 0; dec 0" % _hx(enc))
+    return out
+
+def audit_cap_cases(ctx):
+    """histories under SMALL allocator caps (stream arguments 64 / 48): model H applies the cap to every request, so item
+    blocks, stack records, payloads and growth steps are refused exactly where the size-cap allocator of the harness refuses"""
+    return ["load 9f0102030405060708090a0b0c0d0e0f1011ff ? 0; dec 0", "load bf01020304050607080910111213141516171819ff ? 0; dec 0",
+            "load 5f4100410141024103410441054106410741084109ff ? 0; dec 0", "load 8101 ? 0; dec 0", "load 1bffffffffffffffff ? 0; dec 0",
+            "load 4100 ? 0; dec 0", "load c1f97e00 ? 0; dec 0", "load 7f6161ff ? 0; dec 0", "load 5828" + "41" * 40 + " ? 0; dec 0",
+            "load 5840" + "41" * 64 + " ? 0; dec 0", "load 5841" + "41" * 65 + " ? 0; dec 0", "load 88" + "00" * 8 + " ? 0; dec 0", "load 89" + "00" * 9 + " ? 0; dec 0",
+            "load a4" + "0001" * 4 + " ? 0; dec 0", "load a5" + "0001" * 5 + " ? 0; dec 0",
+            "bi 0 8 1 ? 0; bi 0 64 1 ? 0 1; nia ? 0 1 2; " + "; ".join(["push 2 0 ? 0 1 2"] * 9) + "; copy 2 ? 0 1 2 3; salloc 2; dec 0; dec 1; dec 2; dec 3",
+            "nda 8 ? 0; nda 9 ? 0 1; ndm 4 ? 0 1 2; ndm 5 ? 0 1 2 3; bs 0 " + "41" * 64 + " ? 0 1 2 3 4; bs 0 " + "41" * 65 + " ? 0 1 2 3 4 5; dec 0; dec 1; dec 2; dec 3; dec 4; dec 5"]
+
+
+def audit_assert_cases(ctx):
+    """one history per CBOR_ASSERT that model H renders as assert_ / FType on a client-reachable path: the assert-enabled
+    build must abort on THAT assertion where the model says Fault (compared after canonicalisation, dbg flavour only; in the
+    release build these calls are undefined behaviour and are not run)"""
+    return [
+        "ni 8 ? 0; su 16 0 5", "ni 64 ? 0; su 32 0 5", "bs 0 61 ? 0; su 8 0 5", "bs 0 61 ? 0; mku 0", "nia ? 0; mkn 0",
+        "ni 8 ? 0; sf 32 0 0", "nf 16 ? 0; sf 32 0 0", "nf 64 ? 0; sf 16 0 0", "nf 32 ? 0; sf 64 0 0",
+        "bi 0 8 1 ? 0; sc 0 5", "bf 32 0 ? 0; sc 0 5", "bc 5 ? 0; sb 0 1", "nc ? 0; sb 0 0", "bi 0 8 1 ? 0; sb 0 1", "bf 64 0 ? 0; sb 0 1",
+        "bi 0 8 1 ? 0; inc 0 ? 0; mv 0 ? 0; mv 0 ? 0; dec 0", "bi 0 8 1 ? 0; inc 0 ? 0; mv 0 ? 0; mv 0 ? 0; idec 0",
+        "bi 0 8 1 ? 0; bi 0 8 2 ? 0 1; push 0 1", "bi 0 8 1 ? 0; bi 0 8 2 ? 0 1; madd 0 1 1", "bi 0 8 1 ? 0; bi 0 8 2 ? 0 1; tset 0 1",
+        "bi 0 8 1 ? 0; titem 0", "bs 0 61 ? 0; bs 0 62 ? 0 1; chunk 0 1", "bs 1 61 ? 0; bs 1 62 ? 0 1; chunk 0 1", "nis 0 ? 0; seth 0 6162", "nis 1 ? 0; seth 0 6162",
+        "bi 1 8 1 ? 0; sert uint 0 4", "bi 0 8 1 ? 0; sert negint 0 4", "bs 1 61 ? 0; sert bytes 0 4", "bs 0 61 ? 0; sert string 0 4",
+        "nim ? 0; sert array 0 4", "nia ? 0; sert map 0 4", "nia ? 0; sert tag 0 4", "nt 1 ? 0; sert fc 0 4", "bf 16 0 ? 0; sert uint 0 4", "bc 20 ? 0; sert tag 0 1",
+    ]
